@@ -54,6 +54,10 @@ def guard_tables(chk, lib, rule, want_off=True, want_on=False):
     def judge(name, o, flag_on, inr, key):
         nonlocal n
         n += 1
+        if flag_on and not want_on:
+            return
+        if (not flag_on) and not want_off:
+            return
         if o.kind == 'exc':
             chk.ob(rule, "%s: the guard prefix is a decision over (flag, range predicates): %s" % (name, o.exc), False,
                    o.exc.where, key + '-unrecognised')
@@ -139,6 +143,9 @@ def run(chk):
                 chk.ob('R5.5', "%s::default(): %s" % (selfty, ex), False, ex.where, 'default-trait-' + selfty)
     from . import entry
     entry.batch_short_circuit(chk, lib, 'R5.3')
+    chk.rule('R5.6', "CubicSpline::build selects Extrapolate::No whenever the extrapolation flag is off, whatever the boundary condition")
+    from .c06 import extrapolate_selection
+    extrapolate_selection(chk, lib, 'R5.6', flags=(False,))
     chk.exhaustive = True
     chk.explanation = (
         "The three range predicates and the guard prefixes of all three strategies touch the query only through "
